@@ -126,7 +126,11 @@ PROPS = {
                    "once from its first location to exactly its missing target offsets, no copy overwrites a still-needed chunk that was "
                    "not copied or buffered - via the explicit-stack DFS invariant, with termination inside the model's fuel proved), "
                    "executor_sound (executing any safe plan never fails and puts every reusable chunk in place), inplace_exact (reorder, "
-                   "then feeding the missing chunks in any order among any other chunks, then resize = the source). Tied to the code by "
+                   "then feeding the missing chunks in any order among any other chunks, then resize = the source); byte level: "
+                   "inplace_clone_exact / inplace_clone_succeeds (Clone.run with --seed-output over ANY prior byte string - colliding junk "
+                   "chunks included: success implies output = source, and an honest reader gives success - or a collision with a genuine "
+                   "source chunk), clone_steps_as_modelled. Tied to the code by CLI in-place clones (with seeds, rotated, longer/shorter prior "
+                   "outputs; write system calls observed) and by "
                    "differential runs of the real ChunkIndex::reorder_ops and CloneOutput::reorder_in_place on a logging in-memory file: "
                    "all pairs of tilings of <=3 chunks over 3 ids x 6 size tables (<=4 over 4 x 5 tables thorough) + random layouts; the "
                    "implementation's own plans are also judged by the independent safePlan specification and the final bytes by the source.",
@@ -147,11 +151,15 @@ PROPS = {
         assumptions=["chunk sizes >= 1; equal keys (truncated hashes) mean equal bytes - otherwise a collision is exhibited"],
     ),
     "C13": dict(
-        level_text="Lean 4 theorems write_log_exact / write_log_exact_plain: for every prior tiling O, source N and feed sequence, every write "
-                   "of reordering + feeding is one source chunk's bytes at one of its source offsets, offsets are pairwise distinct, a location "
-                   "already holding the right chunk is never written, and no write ends beyond the source length. Tied to the code by the C03 "
-                   "correspondence (exact write logs compared) with a write-log oracle on the implementation.",
-        level_note="Trusted: as C03; observed at the AsyncWrite interface of an in-memory output (the CLI level is observed by C16/C05 runs).",
+        level_text="Lean 4 theorems: clone_write_log_exact (byte level, the whole Clone.run - plain or in place, any seeds, any reader and codec "
+                   "behaviour, whatever the result: every write is one source chunk's bytes at one of its source offsets, no offset twice, "
+                   "nothing at or beyond the source length, nothing where the scan of the prior output found that chunk - or a collision with a "
+                   "genuine source chunk is exhibited), lifted from the tiling-level write_log_exact / write_log_exact_plain; "
+                   "clone_steps_as_modelled (the extracted step order is the one Clone.run transcribes). Tied to the code by (1) the C03 "
+                   "correspondence of the real CloneOutput on a logging in-memory file (exact write logs) and (2) CLI clones under strace: every "
+                   "write system call on the output (new, forced over longer, seeds, in place, rotated, block device; chunks larger than the "
+                   "2 MiB one write call takes) judged by the C13 rules and compared chunk by chunk with the model's write log.",
+        level_note="Trusted: as C03 + strace's report of lseek/write; write data is not captured (the final bytes and the offsets are).",
         technique="Lean 4 proof (executor/feed write-log invariants) + differential correspondence of exact write logs",
         design_ref="DESIGN.md 5/C13",
         module="Bita.Props.C13",
@@ -160,7 +168,8 @@ PROPS = {
         required_theorems=["write_log_exact", "write_log_exact_plain", "clone_write_log_exact", "clone_steps_as_modelled"],
         suites=dict(quick=[("l1", "c03"), ("py", "c13_writes")], thorough=[("l1", "c03"), ("py", "c13_writes")]),
         rule="as C03; the write log of the real CloneOutput on a logging in-memory file is compared entry by entry with the model's and "
-             "judged by the C13 oracle (source chunk at its offset, once, not in place, within the source length)",
+             "judged by the C13 oracle (source chunk at its offset, once, not in place, within the source length); CLI: 26 (120 thorough) "
+             "clones in 7 modes under strace, bursts of contiguous write calls must be whole source chunks at their offsets",
         trusted_base=LEAN_TB,
         assumptions=["as C03"],
     ),
